@@ -459,7 +459,7 @@ grids:
 # multiplicity 1 -- the same grid written as a lattice map (or with quoted specifiers) places them.  Reproduction:
 # the text of pin_lattice_text("explicit", [1, 2], ...) below: pinA has mult 1.0 and a CoordinateLocation.
 # With the flag set the instance with bare-integer specifiers in explicit contents is not run.
-KNOWN_DEFECT_integer_specifiers_in_explicit_contents_never_match = False
+KNOWN_DEFECT_integer_specifiers_in_explicit_contents_never_match = False  # repaired in /repo (fix: a361d54)
 
 
 # Candidate genuine defect found by this harness on the unchanged tree: GridBlueprint._getMaxIndex sizes the spatial
@@ -469,7 +469,7 @@ KNOWN_DEFECT_integer_specifiers_in_explicit_contents_never_match = False
 # keep multiplicity 1, silently.  Reproduction: the text of pin_lattice_text("map", ["A", "B"], [0, 2, 2, 2], 2, 2)
 # (lattice map "- -" / "A -"): pinA has mult 1.0 and a CoordinateLocation; with "A -" / "- -" (index (-1, 0), max
 # index 0) it has mult 1 and sits at (-1, 0).  With the flag set at least one occupied position has an index >= 0.
-KNOWN_DEFECT_contents_with_only_negative_indices_get_an_empty_grid = False
+KNOWN_DEFECT_contents_with_only_negative_indices_get_an_empty_grid = False  # repaired in /repo (fix: 5446422)
 
 
 def pin_lattice_text(form, specs, kinds, nx, ny):
